@@ -12,9 +12,14 @@
      pkg/hook/hook_manager.go                     HandleAdmissionEvent (validating hooks, then mutating)
      pkg/shell-operator/operator.go:226-279       the event handler: run the task, Fail => deny,
                                                   no response prop => error
+     pkg/shell-operator/operator.go handleRunHook the steps of one HookRun task after the hook process
+                                                  has ended: Run (parse metrics, response, conversion
+                                                  response), ParseOperations, ExecuteOperations,
+                                                  SendBatch, and only then SetProp("admissionResponse")
      pkg/webhook/admission/response.go            ResponseFromFile (empty => nil), FromReader (one JSON
                                                   object and nothing after it — REPAIRED, F19)
-     pkg/hook/hook.go Run                         non-zero exit / undecodable response => error => Fail
+     pkg/hook/hook.go Run                         non-zero exit / undecodable metrics, response or
+                                                  conversion response => error => Fail
 
    Strings are byte lists (Common.bytes). *)
 From Verif Require Import Common.
@@ -140,7 +145,87 @@ Inductive rfile :=
 | FMalformed
 | FResp (allowed : bool) (msg : N) (warnings : list N) (patch : N) (trailing : bool).
 
-Record run := mkRun { exit_zero : bool; file : rfile }.
+(* what the hook left in $METRICS_PATH.  MUnparsable: operation.MetricOperationsFromFile fails
+   (hook.go Run returns the error).  MOps: a stream of metric operations that decodes;
+   invalid = at least one of them is refused by operation.ValidateOperations, which
+   HookMetricStorage.SendBatch runs over the whole batch before it applies anything;
+   marker = the batch contains the harness' marker operation (a valid one), whose effect on
+   the hooks' metric storage is observable. *)
+Inductive mfile :=
+| MEmpty
+| MUnparsable
+| MOps (marker : bool) (invalid : bool).
+
+(* what the hook left in $CONVERSION_RESPONSE_PATH (every hook run reads it, whatever the
+   binding type).  CMalformed: conversion.ResponseFromFile fails. *)
+Inductive cfile := CEmpty | COk | CMalformed.
+
+(* what the hook left in $KUBERNETES_PATCH_PATH.  KUnparsable: objectpatch.ParseOperations
+   fails (not JSON/YAML documents, or a document the schema refuses: nothing is applied).
+   KOps: every document is a valid operation; rejected = the API server refuses at least one
+   of them (ObjectPatcher.ExecuteOperations executes EVERY operation and returns the collected
+   errors); marker = the harness' marker operation (one the API server accepts) is among
+   them, its effect on the cluster is observable. *)
+Inductive kfile :=
+| KEmpty
+| KUnparsable
+| KOps (marker : bool) (rejected : bool).
+
+Record run := mkRun { exit_zero : bool; file : rfile; metrics : mfile; conv : cfile; kpatch : kfile }.
+
+(* the hook's verdict as decoded: allowed, message, warnings, patch *)
+Definition resp := (bool * N * list N * N)%type.
+
+(* pkg/hook/hook.go Run, after the hook process has ended: exit status, then the metrics file,
+   the admission response file, the conversion response file are parsed in this order and the
+   patch file is read; the first error ends Run.  None = Run returned an error;
+   Some o = Result with AdmissionResponse o (nil for an empty file). *)
+Definition hook_run (r : run) : option (option resp) :=
+  if negb (exit_zero r) then None                                   (* RunAndLogLines: "<hook> FAILED" *)
+  else match metrics r with
+       | MUnparsable => None                                        (* "got bad metrics" *)
+       | _ =>
+         match file r with
+         | FMalformed => None                                       (* "got bad validating response" *)
+         | FResp _ _ _ _ true => None                               (* REPAIRED (F19): data after the object *)
+         | f =>
+           match conv r with
+           | CMalformed => None                                     (* "got bad conversion response" *)
+           | _ => Some (match f with
+                        | FResp allowed msg warnings patch _ => Some (allowed, msg, warnings, patch)
+                        | _ => None
+                        end)
+           end
+         end
+       end.
+
+(* the HookRun task when taskHandler returns: its status, its "admissionResponse" prop, and
+   what the run did to the cluster / the hooks' metric storage (marker effects) *)
+Record task_end := mkEnd { t_fail : bool; t_prop : option resp; t_kapplied : bool; t_mapplied : bool }.
+
+(* operator.go handleRunHook + the status taskHandleHookRun derives from its error (admission
+   bindings never allow failure).  After Run: ParseOperations, ExecuteOperations, SendBatch,
+   and ONLY THEN t.SetProp("admissionResponse") — every error before it returns at once, so a
+   failed task has no response prop.  (When Run itself fails, Result.KubernetesPatchBytes has
+   not been read yet: the patch-status-on-error branch has nothing to do.) *)
+Definition handle_run_hook (r : run) : task_end :=
+  match hook_run r with
+  | None => mkEnd true None false false
+  | Some o =>
+    match kpatch r with
+    | KUnparsable => mkEnd true None false false                    (* ParseOperations *)
+    | k =>
+      let kap := match k with KOps marker _ => marker | _ => false end in
+      match k with
+      | KOps _ true => mkEnd true None kap false                    (* ExecuteOperations *)
+      | _ =>
+        match metrics r with
+        | MOps _ true => mkEnd true None kap false                  (* SendBatch: ValidateOperations *)
+        | m => mkEnd false o kap (match m with MOps marker _ => marker | _ => false end)
+        end
+      end
+    end
+  end.
 
 (* ------------------------------------------------------------------ the HTTP exchange *)
 
@@ -164,24 +249,25 @@ Definition ran := option (N * (btype * bytes)).
 (* errored(err) with the UID set by serveReviewRequest *)
 Definition errored (uid : N) (m : amsg) : review := mkReview uid false 500 m [] 0 false.
 
+(* operator.go:262-278 (the event handler after taskHandler returned) + handler.go:86-132:
+   status Fail is looked at FIRST => "Hook failed"; then the response prop: none => error *)
+Definition answer_of_task (uid : N) (t : task_end) : review :=
+  if t_fail t then mkReview uid false 403 AMHookFailed [] 0 false
+  else match t_prop t with
+       | None => errored uid AMPropError                            (* "hook task prop error" *)
+       | Some (allowed, msg, warnings, patch) =>
+         mkReview uid allowed
+                  (if allowed then 0 else 403)
+                  (if allowed then AMNone else if N.eqb msg 0 then AMNone else AMHook msg)
+                  warnings patch (negb (N.eqb patch 0))
+       end.
+
 (* operator.go:226-279 + handler.go:86-132 *)
 Definition admit_review (hooks : list hook) (path : bytes) (uid : N) (r : run) : review * ran :=
   let '(conf, id) := detect path in
   match find_task hooks conf id with
   | None => (errored uid AMNoHook, None)                       (* "no hook found for ..." *)
-  | Some (h, l) =>
-    let who := Some (h, l) in
-    if negb (exit_zero r) then (mkReview uid false 403 AMHookFailed [] 0 false, who)      (* Fail *)
-    else match file r with
-         | FMalformed => (mkReview uid false 403 AMHookFailed [] 0 false, who)            (* Run fails: Fail *)
-         | FEmpty => (errored uid AMPropError, who)                                       (* no response prop *)
-         | FResp _ _ _ _ true => (mkReview uid false 403 AMHookFailed [] 0 false, who)    (* REPAIRED (F19): Run fails *)
-         | FResp allowed msg warnings patch false =>
-           (mkReview uid allowed
-                     (if allowed then 0 else 403)
-                     (if allowed then AMNone else if N.eqb msg 0 then AMNone else AMHook msg)
-                     warnings patch (negb (N.eqb patch 0)), who)
-         end
+  | Some (h, l) => (answer_of_task uid (handle_run_hook r), Some (h, l))
   end.
 
 (* serveReviewRequest behind the router's middlewares *)
@@ -190,6 +276,19 @@ Definition admit_request (hooks : list hook) (path : bytes) (b : body) (r : run)
   | BWrongContentType => (AStatus 415, None)
   | BMalformed | BNoRequest => (AStatus 400, None)
   | BReview uid => let '(rv, who) := admit_review hooks path uid r in (AReview rv, who)
+  end.
+
+(* what the exchange did outside the answer: (the marker Kubernetes operation was applied,
+   the marker metric operation was applied).  Nothing happens unless a hook ran. *)
+Definition admit_effects (hooks : list hook) (path : bytes) (b : body) (r : run) : bool * bool :=
+  match b with
+  | BReview _ =>
+    let '(conf, id) := detect path in
+    match find_task hooks conf id with
+    | None => (false, false)
+    | Some _ => let t := handle_run_hook r in (t_kapplied t, t_mapplied t)
+    end
+  | _ => (false, false)
   end.
 
 (* what gets registered (resource.go Register): per hook, its validating bindings then its
